@@ -48,11 +48,12 @@ H("c08_ev_bin_dec", "c08_scalar::c08_ev_bin_dec", ["C08", "C13"],
 
 # ---------------------------------------------------------------------------------------- C02 fusion
 H("c02_fuse_tokens", "c02_fuse::c02_fuse_tokens", ["C01", "C18", "C12"],
-  ["generator::utils::should_break_with_space"],
+  ["generator::utils::should_break_with_space", "generator::utils::should_break_after_number"],
   "every pair of well-formed tokens A (<= 3 printable ASCII bytes) and B (<= 4 bytes) that the grammar allows to be adjacent (names/keywords, well-formed numbers, short and long strings, all operator and punctuation symbols except compound assignments)",
   mode="lean", timeout_s=900, replay="fuse_tokens",
   assumptions=["adjacency relation reference::may_follow written from the Lua 5.1/Luau grammar (operand-end / operand-start follow sets)",
-               "R-LEX reference::munch models Lua 5.1 read_numeral / Luau readNumber maximal munch"])
+               "R-LEX reference::munch models Lua 5.1 read_numeral / Luau readNumber maximal munch",
+               "that the token-based generator consults should_break_after_number exactly after a number literal (flag set by write_number, cleared by push_str) is read, not executed"])
 H("c02_fuse_dense", "c02_fuse::c02_fuse_dense", ["C02"],
   ["generator::utils::should_break_with_space", "generator::utils::break_concat", "generator::utils::break_variable_arguments",
    "generator::utils::break_minus", "generator::utils::break_equal", "generator::utils::break_long_string"],
